@@ -73,6 +73,11 @@ func (obj *Array) calcAndSet(list List) {
 			obj.sizes[i] = size
 			size *= len(list)
 			if i < len(obj.dims)-1 {
+				if len(list) == 0 {
+					// An empty dimension, the remaining dimensions are
+					// empty as well.
+					continue
+				}
 				if list, ok = list[0].(List); !ok {
 					ErrorPanic(NewScope(), 0, "Invalid data for a %d dimension array. %s", len(obj.dims), list)
 				}
